@@ -4,6 +4,7 @@ package bodies
 
 import (
 	"fmt"
+	"strings"
 
 	"github.com/bufbuild/connect-go/verif/prog"
 	"github.com/bufbuild/connect-go/verif/refwire"
@@ -93,6 +94,12 @@ func Gen(t *rapid.T, dir string, sizes []int) Spec {
 		b.Knobs = refwire.Knobs{
 			LowerHex: rapid.Bool().Draw(t, "lowerhex"), PadBase64: rapid.Bool().Draw(t, "pad"),
 			LowerKeys: rapid.Bool().Draw(t, "lowerkeys"), FinalCRLF: rapid.Bool().Draw(t, "crlf"),
+			OmitDetailsBin: rapid.Bool().Draw(t, "omitdetails"),
+		}
+		if b.Knobs.OmitDetailsBin && b.ErrMsg != "" {
+			// without the binary status the message travels only in grpc-message,
+			// whose edge blanks HTTP does not preserve
+			b.ErrMsg = strings.Trim(b.ErrMsg, " ")
 		}
 	}
 	return b
